@@ -439,10 +439,11 @@ def gen_box_style(rng, ctx):
         st.append('opacity:%s' % rng.choice(['.5', '0', '1', '.99', '.25']))
         translucent = True
     if r() < 0.15:
-        # a non-invertible transform together with opacity < 1 on the same box under pdf/ua-1 is finding F29
-        choices = ['rotate(10deg)', 'scale(2)', 'translate(3px, 4px)', 'matrix(1,0,0,1,5,5)', 'skew(10deg)', 'scale(.5) rotate(1rad)']
-        if not (translucent and ctx.get('marked')):
-            choices += ['scale(0)', 'scaleX(0)']
+        # (a non-invertible transform with opacity < 1 under pdf/ua-1 was finding F29, fixed in dd3d4b1: kept in the grammar)
+        choices = ['rotate(10deg)', 'scale(2)', 'translate(3px, 4px)', 'matrix(1,0,0,1,5,5)', 'skew(10deg)', 'scale(.5) rotate(1rad)',
+                   'scale(0)', 'scaleX(0)']
+        if translucent:
+            choices += ['scale(0)', 'matrix(1,1,1,1,0,0)']
         st.append('transform:%s' % rng.choice(choices))
         if r() < 0.3:
             st.append('transform-origin:%s' % rng.choice(['0 0', '50% 50%', 'right bottom']))
@@ -564,8 +565,8 @@ def gen_content(rng, depth, ctx):
 
 
 def gen_doc(rng, opts):
-    """Returns (html, expectation dict).  The grammar avoids the known defect sites F28 (SVG that raises while
-    being drawn) and F29 (opacity + non-invertible transform under pdf/ua-1)."""
+    """Returns (html, expectation dict).  The grammar avoids the open defect site F66 (an SVG that raises while
+    being drawn) and the crash sites listed in the C16 report (C02 findings)."""
     W, H = rng.choice([(200, 150), (300, 200), (120, 400), (500, 500), (64, 64), (333, 77)])
     bleed = rng.choice([0, 0, 0, 5, 12, 30])
     marks = rng.choice(['', '', 'crop', 'cross', 'crop cross']) if bleed else ''
@@ -1318,39 +1319,31 @@ def ast_pass(repo):
 
 # ======================================================================================== the check itself
 
-# Defects confirmed on the unchanged tree and reported (see the final report of the C16 builder).  A signature listed
-# in known_findings.json (status open) is handled by common.Run.fail; this local list keeps the check at exit 0
-# until the entries are moved there or the defects are fixed in /repo.  Nothing is ever added at run time.
-LOCAL_KNOWN = {
-    'F12:skip-not-redundant': 'an operator installed behind the colour/alpha cache (set_state with /ca, Pattern colour) makes a skipped operator non-redundant',
-    'F28:svg-exception-swallowed': 'SVGImage.draw swallows an exception raised while drawing: the content stream keeps the q/BT opened so far',
-    'F29:ast:weasyprint/draw/__init__.py:draw_stacking_context:71': 'end_marked_content() on the opacity group instead of the stream where begin_marked_content() was called (pdf/ua-1)',
-}
-
+# Open finding F66 (known_findings.json, signature 'svg-exception-unbalanced-q'): SVGImage.draw swallows an exception
+# raised while the SVG is drawn; what was pushed so far stays open in the content stream.  Probed by one dedicated
+# witness; the random grammar avoids the triggers.  The other witnesses are regression probes of fixed findings.
+F66 = 'svg-exception-unbalanced-q'
 WITNESSES = {
-    # name: (signature, case)
-    'F12-mask-border': ('F12:skip-not-redundant', {
+    # name: (signature or None, case)
+    'F12-mask-border(fixed 081cf63)': (None, {
         'html': '<style>@page{size:100px;margin:0}body{font-family:weasyprint;font-size:10px;margin:0}</style>'
                 '<p style="color:rgba(0,0,0,.5)">ab<span style="mask-border: url(pattern.png) 1; background: rgba(0,0,255,.5)">cd</span></p>',
         'options': {'uncompressed_pdf': True}, 'record': True}),
-    'F28-svg-marker': ('F28:svg-exception-swallowed', {
+    'F12-svg-pattern-colour(fixed d0792aa)': (None, {
         'html': '<style>@page{size:100px;margin:0}</style><img src="data:image/svg+xml,<svg xmlns=\'http://www.w3.org/2000/svg\' width=\'40\' height=\'40\'>'
-                '<defs><marker id=\'k\' markerWidth=\'6\' markerHeight=\'6\' orient=\'auto\'><circle cx=\'3\' cy=\'3\' r=\'2\'/></marker></defs>'
-                '<path d=\'M 1 1\' marker-end=\'url(%23k)\'/></svg>">', 'options': {'uncompressed_pdf': True}, 'record': True}),
-    'F29-ua-opacity-scale0': ('F29:ast:weasyprint/draw/__init__.py:draw_stacking_context:71', {
+                '<defs><linearGradient id=\'g\'><stop offset=\'0\' stop-color=\'red\'/><stop offset=\'1\' stop-color=\'blue\'/></linearGradient>'
+                '<marker id=\'k2\' markerWidth=\'10\' markerHeight=\'10\'><rect width=\'3\' height=\'3\' fill=\'lime\'/></marker>'
+                '<marker id=\'k\' markerWidth=\'10\' markerHeight=\'10\'><path d=\'M 0 0 L 5 0 L 5 5 z\' fill=\'url(%23g)\' marker-start=\'url(%23k2)\'/></marker></defs>'
+                '<path d=\'M 5 5 L 30 30 L 5 30 z\' fill=\'lime\' marker-start=\'url(%23k)\'/></svg>">',
+        'options': {'uncompressed_pdf': True}, 'record': True}),
+    'F29-ua-opacity-scale0(fixed dd3d4b1)': (None, {
         'html': '<style>@page{size:100px;margin:0}body{font-family:weasyprint;font-size:10px;margin:0}</style>'
                 '<div style="opacity:.5;transform:scale(0)">abc</div>', 'options': {'pdf_variant': 'pdf/ua-1'}, 'record': True}),
+    'F66-svg-marker-on-single-vertex-path': (F66, {
+        'html': '<style>@page{size:100px;margin:0}</style><img src="data:image/svg+xml,<svg xmlns=\'http://www.w3.org/2000/svg\' width=\'40\' height=\'40\'>'
+                '<defs><marker id=\'k\' markerWidth=\'6\' markerHeight=\'6\' orient=\'auto\'><circle cx=\'3\' cy=\'3\' r=\'2\'/></marker></defs>'
+                '<path d=\'M 1 1\' marker-end=\'url(%23k)\'/></svg>">', 'options': {'uncompressed_pdf': True}, 'record': False}),
 }
-
-
-def report(run, what, data, signature):
-    """a concrete failing input: VIOLATION unless it is a registered (or locally acknowledged) known finding"""
-    if any(k.get('signature') == signature for k in run.known):
-        return run.fail(what, data, signature)
-    if signature in LOCAL_KNOWN:
-        run.known_hits.append(({'signature': signature, 'what': LOCAL_KNOWN[signature]}, what))
-        return False
-    return run.fail(what, data, signature)
 
 
 def classify_doc(run, case, st, o, stream):
@@ -1365,8 +1358,8 @@ def classify_doc(run, case, st, o, stream):
                  signature='crash:%s' % (o['site'],))
         return None
     for site in o.get('swallowed') or []:
-        report(run, 'an exception raised while drawing an SVG was swallowed (%s): what was drawn so far stays in the stream' % site,
-               dict(small, site=site), 'F28:svg-exception-swallowed')
+        run.fail('an exception raised while drawing an SVG was swallowed (%s): what was pushed so far stays open in the stream' % site,
+                 dict(small, site=site), signature='crash:svg:%s' % site)
     swallowed = bool(o.get('swallowed'))
     for clause, detail in o['bad'][:3]:
         if swallowed and clause.startswith(('balance', 'nest', 'special-gs', 'text-op')):
@@ -1395,12 +1388,12 @@ def judge_traces(run, docs, tag):
 def check(run):
     rng = random.Random(run.seed * 7919 + 16)
     thorough = run.tier == 'thorough'
-    common.prove(run, 'C16', ['model/C16Stream.vo'])
+    common.prove(run, 'C16', ['model/C16Stream.vo', 'model/C16Res.vo'])
     run.trusted += ['Coq 8.16.1 kernel (coqc); vm_compute for the cases.v evaluation',
                     'harness/pdfread.py (independent PDF reader, ISO 32000-1 Annex A operator table) and the judges of harness/p_c16.py (Python)',
                     'harness/impl_c16.py: decoding of Stream.stream items into model tokens; the call recorder (wraps the methods of weasyprint.pdf.stream.Stream in the worker process)',
                     'pydyf (not in the repository): its one-item-per-call emitters are exercised as `Tok k`; file syntax (header, xref, trailer) is monitored, not modelled']
-    run.assumptions += ['no exception is swallowed between a paired push_state/pop_state or begin_text/end_text (the AST pass lists the two places where one is: SVGImage.draw and suppress(PointError) in svg draw_node; finding F28)',
+    run.assumptions += ['no exception is swallowed between a paired push_state/pop_state or begin_text/end_text (the AST pass lists the two places where one is: SVGImage.draw and suppress(PointError) in svg draw_node; open finding F66)',
                         'content of fonts, images and attachments is judged by decodability only (font tables: C16 partial)',
                         'reference interpreter: fill/stroke colour, alpha constants, font, CTM, text matrix, q/Q stack; dash, line width, clip, blend mode and soft mask are not cached by Stream and therefore not part of skip soundness']
 
@@ -1416,16 +1409,13 @@ def check(run):
                 break
         for (c, o), m in zip(kept, masks):
             if m & 4:
-                run.fail('guarded calls: a skipped operator was not redundant on the real Stream', {'stream': 'stream-direct', 'case': c, 'impl': o}, signature='stream:skip-unsound')
-                break
-        nf12 = sum(1 for m in masks if m & 8)
-        for (c, o), m in zip(kept, masks):
-            if m & 8:
-                report(run, 'a skipped operator was not redundant (operator installed behind the cache)', {'stream': 'stream-direct', 'case': c, 'bytes': o.get('bytes', '')[:2000]}, 'F12:skip-not-redundant')
+                run.fail('a skipped operator was not redundant on the real Stream (rendering of the emitted items differs from the un-optimised sequence)',
+                         {'stream': 'stream-direct', 'case': c, 'bytes': o.get('bytes', '')[:2000]}, signature='stream:skip-unsound')
                 break
         run.count('stream-direct', len(kept), [(tuple(map(tuple, [x[:2] for x in c['ops'][:6]])), len(c['ops']), c['mark']) for c, _ in kept],
                   samples=[{'case': kept[3][0], 'impl_bytes': kept[3][1].get('bytes', '')[:300]}])
-        run.stream_info('stream-direct', raised=sum(1 for _, o in kept if 'raised' in o), unguarded_and_different=nf12,
+        run.stream_info('stream-direct', raised=sum(1 for _, o in kept if 'raised' in o),
+                        raw_gs_or_pattern=sum(1 for c, _ in kept if any(x[0] in ('state', 'pattern') for x in c['ops'])),
                         well_bracketed=sum(1 for c, _ in kept if _wb(c['ops'])),
                         peephole_qQ=sum(1 for c, _ in kept if _has_pair(c['ops'], 'push', 'pop')),
                         peephole_ETBT=sum(1 for c, _ in kept if _has_pair(c['ops'], 'et', 'bt')),
@@ -1435,17 +1425,34 @@ def check(run):
     except RuntimeError as exc:
         run.oblige('corr:stream-direct', False, str(exc))
 
+    # ---- stream 1b: resource naming, direct calls on a root Stream and the streams it creates
+    try:
+        kept, masks = check_res_direct(run, rng, 1500 if thorough else 300)
+        mism = [(c, o) for (c, o), m in zip(kept, masks) if m & 1]
+        run.oblige('corr:res-direct(model = add_group/add_pattern/add_shading/add_image/set_state/set_alpha on %d call sequences)' % len(kept),
+                   not mism, 'first disagreements: %s' % json.dumps(mism[:2])[:3000])
+        for (c, o), m in zip(kept, masks):
+            if m & 2:
+                run.fail('a name emitted into a stream is not a key of its resource dictionary', {'stream': 'res-direct', 'case': c, 'impl': o},
+                         signature='res:name-undefined')
+                break
+        run.oblige('model:finalise-succeeds-on-direct-cases', not any(m & 4 for m in masks), '')
+        run.count('res-direct', len(kept), [(len(o['streams']), tuple(x[1] for x in o['calls'][:8])) for _, o in kept],
+                  samples=[kept[5][1]['calls'][:12]] if len(kept) > 5 else [])
+        run.stream_info('res-direct', streams=sum(len(o['streams']) for _, o in kept),
+                        names_emitted=sum(len(s['names']) for _, o in kept for s in o['streams']),
+                        rule='random forests: set_alpha/set_blend_mode/set_alpha_state/add_group/add_pattern/add_shading/'
+                             'add_image/clone on any stream created so far, names drawn from the stream they were defined on '
+                             '(90%) or arbitrary (10%); per stream: resource dictionary identity, the four key lists, emitted names')
+    except RuntimeError as exc:
+        run.oblige('corr:res-direct', False, str(exc))
+
     # ---- stream 2: AST pass = premise of the bracket theorem for the real call sites
     problems, swallow, stats = ast_pass(common.REPO)
-    genuine = []
-    for pr in problems:
-        sig = 'F29:ast:%s:%s:%d' % (pr[0], pr[1], pr[2])
-        if sig in LOCAL_KNOWN or any(k.get('signature') == sig for k in run.known):
-            report(run, 'AST: %s %s line %d: %s' % pr, {'stream': 'ast', 'problem': list(pr)}, sig)
-        else:
-            genuine.append(pr)
-    run.oblige('shape:draw-calls-bracketed', not genuine and stats['open_calls'] + stats['with_stacked'] >= 20,
-               'problems: %s ; stats: %s' % (genuine[:5], stats))
+    for pr in problems[:3]:
+        run.fail('AST: %s %s line %d: %s' % pr, {'stream': 'ast', 'problem': list(pr)}, signature='ast:%s:%s' % (pr[0], pr[1]))
+    run.oblige('shape:draw-calls-bracketed', not problems and stats['open_calls'] + stats['with_stacked'] >= 20,
+               'problems: %s ; stats: %s' % (problems[:5], stats))
     run.count('ast', stats['functions_checked'], [('fn', i) for i in range(stats['functions_checked'])])
     run.stream_info('ast', rule='abstract interpretation of every function of draw/, pdf/, svg/, document.py, images.py that calls '
                                 'push_state/begin_text/begin_marked_content or their closers: all paths, receivers by identity, '
@@ -1458,17 +1465,23 @@ def check(run):
     wdocs = []
     for (name, (sig, case)), (st, o) in zip(sorted(WITNESSES.items()), wouts):
         reproduced = False
+        data = {'stream': 'witness', 'name': name, 'html': case['html'], 'options': case['options']}
         if st == 'ok':
             if o.get('swallowed'):
                 reproduced = True
-                report(run, 'witness %s: exception swallowed while drawing an SVG (%s)' % (name, o['swallowed'][0]), {'stream': 'witness', 'name': name, 'html': case['html'], 'options': case['options']}, sig)
+                run.fail('witness %s: exception swallowed while drawing an SVG (%s); %s' % (name, o['swallowed'][0], o['bad'][:1]), data,
+                         signature=sig or 'crash:svg:%s' % o['swallowed'][0])
             elif o['bad']:
                 reproduced = True
-                report(run, 'witness %s: %s' % (name, o['bad'][0]), {'stream': 'witness', 'name': name, 'html': case['html'], 'options': case['options']}, sig)
-            wdocs.append((case, o, name, sig))
+                run.fail('witness %s: %s' % (name, o['bad'][0]), data, signature=sig or 'pdf:%s' % o['bad'][0][0])
+            if sig is None:
+                wdocs.append((case, o, name, sig))
         else:
-            run.fail('witness %s: render failed: %s' % (name, o), {'stream': 'witness', 'name': name, 'html': case['html'], 'options': case['options']}, signature='crash:%s' % (o and o.get('site'),))
+            run.fail('witness %s: render failed: %s' % (name, o), data, signature='crash:%s' % (o and o.get('site'),))
         witness_state[name] = reproduced
+    run.count('witness', len(wit_cases), [('w', n) for n in WITNESSES])
+    run.stream_info('witness', rule='minimal documents of the findings of this property: regression probes of the fixed ones, '
+                    'the open one (F66) reported through its registered signature', reproduce=witness_state)
 
     # ---- stream 4: monitor over the document grammar x options
     ndocs = 1600 if thorough else 230
@@ -1508,23 +1521,17 @@ def check(run):
                    'first disagreement: %s' % json.dumps([{'html': c['html'][:1500], 'options': c['options'], 'trace': {k: v for k, v in tr.items()}} for c, tr in mism[:1]])[:6000])
         contradicted = [(docs[ci][0], tr) for (ci, tr), m in zip(items, masks) if m & (2 | 4)]
         run.oblige('thm-vs-traces(no real trace contradicts the theorems)', not contradicted, json.dumps([tr for _, tr in contradicted[:1]])[:3000])
-        nwb = ntm = nguard = 0
+        nwb = ntm = 0
         for (ci, tr), m in zip(items, masks):
             case, o = docs[ci]
             data = {'stream': 'traces', 'html': case['html'], 'options': case.get('options'), 'zoom': case.get('zoom', 1), 'trace_index': tr['index']}
             nwb += 0 if m & 16 else 1
             ntm += 0 if m & 32 else 1
-            if m & 8:
-                report(run, 'on a real document a skipped operator was not redundant (stream #%d of the document)' % tr['index'], data, 'F12:skip-not-redundant')
             if m & 128:
                 run.fail('merging ET BT changed where text is shown (text matrix not set again)', data, signature='stream:merge-unsound')
             if m & 16 and not o.get('swallowed'):
-                sig = 'calls-not-well-bracketed'
-                # F29: begin_marked_content on the page stream, end_marked_content on the opacity group; without
-                # marking (every variant but pdf/ua-1) both calls emit nothing and the output is unaffected
-                if _wb([x for x in tr['ops'] if x[0] not in ('bmc', 'emc')]):
-                    sig = 'F29:ast:weasyprint/draw/__init__.py:draw_stacking_context:71'
-                report(run, 'the draw code made a call sequence that is not well bracketed on stream #%d' % tr['index'], data, sig)
+                run.fail('the draw code made a call sequence that is not well bracketed on stream #%d of the document' % tr['index'],
+                         dict(data, ops=tr['ops'][:300]), signature='calls-not-well-bracketed')
             if m & 64:
                 run.oblige('traces:initial-ExtGState-well-formed', False, json.dumps(tr['keys0']))
         run.count('stream-traces', len(items), [('trace', len(tr['ops']), tuple(o[0] for o in tr['ops'][:8])) for _, tr in items],
@@ -1554,13 +1561,6 @@ def check(run):
                         'of the monitored PDFs judged by dyck_q, dyck_text, dyck_mc and nested (vm_compute)')
     except RuntimeError as exc:
         run.oblige('spec:skeleton-eval', False, str(exc))
-    run.cov['witnesses_still_reproduce'] = witness_state
-    for k, w in run.known_hits:
-        if k.get('signature') in LOCAL_KNOWN and not any(x.get('signature') == k.get('signature') for x in run.known):
-            line = 'KNOWN-FINDING: property=C16 %s [%s] (acknowledged in harness/p_c16.py LOCAL_KNOWN)' % (k['what'], k['signature'])
-            if line not in run.cov.setdefault('local_known_lines', []):
-                run.cov['local_known_lines'].append(line)
-                print(line)
 
 
 def _wb(ops):
@@ -1614,3 +1614,89 @@ def replay(data):
         return 1 if problems else 0
     print('nothing to replay for', stream)
     return 0
+
+
+# ============================================================== resource naming: direct calls on a forest of streams
+PRE_RES = ('From Coq Require Import ZArith List Bool.\nRequire Import WV.model.C16Stream WV.model.C16Res.\n'
+           'Import ListNotations.\nOpen Scope Z_scope.\n')
+
+
+def gen_res_ops(rng, n):
+    ops, nstreams = [], 1
+    for _ in range(n):
+        sid = rng.randrange(nstreams) if rng.random() < 0.9 else nstreams + 1
+        r = rng.random()
+        if r < 0.12:
+            ops.append([sid, 'alpha', rng.randrange(len(I.ALPHAS)), rng.random() < 0.4])
+        elif r < 0.2:
+            ops.append([sid, 'state'])
+        elif r < 0.28:
+            ops.append([sid, 'alphastate']); nstreams += sid < nstreams
+        elif r < 0.4:
+            ops.append([sid, 'group']); nstreams += sid < nstreams
+        elif r < 0.48:
+            ops.append([sid, 'pattern']); nstreams += sid < nstreams
+        elif r < 0.56:
+            ops.append([sid, 'shading'])
+        elif r < 0.66:
+            ops.append([sid, 'image', rng.choice([1, 7, 11, 110]), rng.random() < 0.5])
+        elif r < 0.7:
+            ops.append([sid, 'clone']); nstreams += sid < nstreams
+        elif r < 0.92:
+            ops.append([sid, rng.choice(['draw', 'draw', 'shade', 'patcolor']), rng.randrange(8)])
+        else:
+            kind = rng.choice(['draw', 'shade', 'patcolor'])
+            ops.append([sid, 'raw', kind, {'draw': rng.choice(['x0', 'x5', 'i71', 'i10']), 'shade': rng.choice(['s0', 's3']),
+                                           'patcolor': rng.choice(['p0', 'p2'])}[kind]])
+    return ops
+
+
+def rname(kw, name):
+    if kw == 'gs':
+        return '(NGs %s)' % ckey(name)
+    if name[0] == 'x' and kw in ('Do', 'draw'):
+        return '(NX %s)' % zlit(int(name[1:]))
+    if name[0] == 'i':
+        return '(NI %s %s)' % (zlit(int(name[1:-1])), cb(name[-1] == '1'))
+    if name[0] == 'p':
+        return '(NP %s)' % zlit(int(name[1:]))
+    if name[0] == 's':
+        return '(NSh %s)' % zlit(int(name[1:]))
+    raise ValueError((kw, name))
+
+
+def ccall(c):
+    sid, kind = c[0], c[1]
+    body = {'state': 'RSetState', 'alphastate': 'RAlphaState', 'group': 'RAddGroup', 'pattern': 'RAddPattern',
+            'shading': 'RAddShading', 'clone': 'RClone'}.get(kind)
+    if kind == 'alpha':
+        body = '(RSetAlpha %s %s %s)' % (zlit(c[2]), cb(c[3]), cb(c[4]))
+    elif kind == 'image':
+        body = '(RAddImage %s %s)' % (zlit(c[2]), cb(c[3]))
+    elif kind == 'draw':
+        body = '(RDraw %s)' % rname('draw', c[2])
+    elif kind == 'shade':
+        body = '(RShade %s)' % rname('sh', c[2])
+    elif kind == 'patcolor':
+        body = '(RPatColor %s)' % rname('scn', c[2])
+    return '(%d%%nat, %s)' % (sid, body)
+
+
+def cimplstr(o):
+    return '(%d%%nat, %s, (%s, %s, %s, %s))' % (
+        o['rid'], clist(rname(k, n) for k, n in o['names']), clist(ckey(k) for k in o['gs']),
+        clist(rname('draw', k) for k in o['xo']), clist(zlit(int(k[1:])) for k in o['pat']), clist(zlit(int(k[1:])) for k in o['sh']))
+
+
+def check_res_direct(run, rng, n):
+    cases = [{'ops': gen_res_ops(rng, rng.choice([2, 5, 10, 20, 40]))} for _ in range(n)]
+    outs = common.run_impl('impl_c16', 'res_direct', cases, chunksize=16)
+    coq, kept = [], []
+    for c, (st, o) in zip(cases, outs):
+        if st != 'ok':
+            run.oblige('corr:res-direct:impl-call', False, 'case %s: %s' % (json.dumps(c)[:300], o))
+            continue
+        coq.append('(%s, %s)' % (clist(ccall(x) for x in o['calls']), clist(cimplstr(x) for x in o['streams'])))
+        kept.append((c, o))
+    masks = common.eval_cases('c16res', PRE_RES, 'list call * list implstr', coq, 'res_judge', per_file=100)
+    return kept, masks
